@@ -120,7 +120,7 @@ func runC06(w *World, r *Report) {
 		ok := false
 		for _, alt := range ReturnAlts(wt, 0) {
 			if rel, isRel := NormCond(Cond{V: alt.Val, Pol: true}); isRel && rel.Op == "==" && Path(rel.L) == "param:r.result" && isConstVal(rel.R, succ) {
-				ok = len(CallsIn(wt, false, "sync.WaitGroup).Wait")) == 1
+				ok = len(CallsIn(wt, false, "sync.WaitGroup).Wait")) == 1 || c06LatchWait(wt) != ""
 			}
 		}
 		r.Check(ok, "R8", "Wait/true-iff-success", wt.Pos(), "Wait blocks on the wait group and returns result == requestSuccess")
@@ -478,7 +478,7 @@ func runC06(w *World, r *Report) {
 		for _, alt := range ReturnAlts(nr, 0) {
 			ea := litField(alt.Val, "expireAt")
 			st := litField(alt.Val, "state")
-			ok := ea != nil && strings.HasSuffix(Path(ea), ", param:ttl)") && strings.Contains(Path(ea), "Now(") && isConstVal(st, w.constOf(pkgQProc, "requestEnqueued")) && len(CallsIn(nr, false, "sync.WaitGroup).Add")) == 1
+			ok := ea != nil && strings.HasSuffix(Path(ea), ", param:ttl)") && strings.Contains(Path(ea), "Now(") && isConstVal(st, w.constOf(pkgQProc, "requestEnqueued")) && (len(CallsIn(nr, false, "sync.WaitGroup).Add")) == 1 || c06LatchMade(w, alt.Val))
 			r.Check(ok, "R7", "NewRequest/expire-and-single-wait", posOf(alt.Ret), "a new request expires at now+ttl, starts enqueued and holds exactly one wait-group count")
 		}
 	}
@@ -583,7 +583,10 @@ func c06RequestStateMachine(w *World, r *Report) {
 		r.Undec("R1", "Request.setSignal", token.NoPos, "function not found")
 	} else {
 		d := CallsIn(ss, false, "sync.WaitGroup).Done")
-		r.Check(len(d) == 1 && len(CondsOf(d[0].Block())) == 0 && alwaysRuns(d[0]) && strings.HasSuffix(Path(d[0].Common().Args[0]), "r.waitGroup"), "R1", "setSignal/releases-the-waiter-once", ss.Pos(), "setSignal is one unconditional waitGroup.Done on the request's own wait group")
+		okWG := len(d) == 1 && len(CondsOf(d[0].Block())) == 0 && alwaysRuns(d[0]) && strings.HasSuffix(Path(d[0].Common().Args[0]), "r.waitGroup")
+		// the same hand-over written with a channel: one send on (or close of) the request's own channel
+		okCh := len(d) == 0 && c06LatchSignal(ss) != ""
+		r.Check(okWG || okCh, "R1", "setSignal/releases-the-waiter-once", ss.Pos(), "setSignal is one unconditional waitGroup.Done on the request's own wait group (or one send on / close of the request's own latch channel)")
 	}
 	constName := func(v ssa.Value) string {
 		for _, n := range []string{"requestEnqueued", "requestProcessing", "requestProcessed", "requestSuccess", "requestTimeout"} {
@@ -720,4 +723,78 @@ func fieldBaseType(v ssa.Value) types.Type {
 		}
 	}
 	return types.Typ[types.Invalid]
+}
+
+
+// The request's wake-up latch written with a channel instead of a WaitGroup.
+// c06LatchSignal: setSignal sends once on (or closes) a channel field of the request, on every path;
+// returns the field ("" if not so) and, via the suffix "!", that the send is non-blocking.
+func c06LatchSignal(ss *ssa.Function) string {
+	field := ""
+	n := 0
+	Instrs(ss, func(in ssa.Instruction) {
+		switch x := in.(type) {
+		case *ssa.Send:
+			n++
+			if alwaysRuns(x) {
+				field = typedField(x.Chan)
+			}
+		case *ssa.Select:
+			n++
+			if len(x.States) == 1 && x.States[0].Dir == types.SendOnly && alwaysRuns(x) {
+				field = typedField(x.States[0].Chan)
+				if !x.Blocking {
+					field += "!"
+				}
+			}
+		case *ssa.Call:
+			if b, isB := x.Call.Value.(*ssa.Builtin); isB && b.Name() == "close" {
+				n++
+				if alwaysRuns(x) {
+					field = typedField(x.Call.Args[0])
+				}
+			}
+		}
+	})
+	if n != 1 || !strings.HasPrefix(strings.TrimSuffix(field, "!"), "Request.") {
+		return ""
+	}
+	return field
+}
+
+// c06LatchWait: Wait receives from a channel field of the request.
+func c06LatchWait(wt *ssa.Function) string {
+	field := ""
+	Instrs(wt, func(in ssa.Instruction) {
+		if u, isU := in.(*ssa.UnOp); isU && u.Op == token.ARROW {
+			field = typedField(u.X)
+		}
+	})
+	if !strings.HasPrefix(field, "Request.") {
+		return ""
+	}
+	return field
+}
+
+// c06LatchMade: the constructor makes that channel; when the signal is a non-blocking send the
+// channel has room for it (an unbuffered latch loses a wake-up that comes before the waiter).
+func c06LatchMade(w *World, req ssa.Value) bool {
+	ss, wt := w.Fn(pkgQProc, "Request.setSignal"), w.Fn(pkgQProc, "Request.Wait")
+	if ss == nil || wt == nil {
+		return false
+	}
+	sig, wait := c06LatchSignal(ss), c06LatchWait(wt)
+	if sig == "" || wait == "" || strings.TrimSuffix(sig, "!") != wait {
+		return false
+	}
+	fld := strings.TrimPrefix(wait, "Request.")
+	mk, isMk := peel(litField(req, fld)).(*ssa.MakeChan)
+	if !isMk {
+		return false
+	}
+	size, isK := constInt(mk.Size)
+	if strings.HasSuffix(sig, "!") {
+		return isK && size >= 1
+	}
+	return true
 }
